@@ -1,2 +1,77 @@
-(* Properties_C09_hll.v — placeholder while the codec pipeline is brought up (replaced by the theorems). *)
-From DS Require Import HllCodecDefs.
+(* Properties_C09_hll.v — hll_sketch serialization round trip (C09), about the executable codec model HllCodecDefs.v
+   ([enc] = serialize_compact / serialize_updatable, [dec_stream] / [dec_bytes] = the two readers as repaired by
+   fixes/11_hll_reader_bounds.patch) and the sketch model HllDefs.v that is run against the C++.
+   Quantification: every lg_k 4..21, target type, start_full_size, every coupon sequence (states reached by [sk_run]), both image
+   forms, both readers, any bytes [rest] following the image, any hipAccum pattern (read from the object).
+   "Observationally identical" is stated in the strongest available form: the restored sketch satisfies the SAME representation
+   invariant [skinv] for the SAME coupon history, hence has the same content, mode, estimator inputs, and keeps behaving like the
+   original under any further updates ([C09_hll_restored_continues]).  Where the image stores the state verbatim (list; updatable set;
+   HLL_6 / HLL_8) the restored state is EQUAL to the original and re-serializes to the same bytes; where the reader re-hashes
+   (compact set, HLL_4 aux map) the content is equal and the physical order of table entries is unspecified.
+   NOT modelled: hipAccum arithmetic (its bit pattern is carried through), header form serialize_compact(n) and the stream position
+   of the C++ (checked on the implementation by the harness on every case). *)
+From Coq Require Import ZArith NArith List Bool Lia.
+From DS Require Import Word RunnerLib HllDefs HllProofs HllSketchProofs HllCodecDefs HllCodecProofs.
+Import ListNotations.
+Local Open Scope N_scope.
+
+(* deserialize(serialize(s)) through either reader (stream = true / false), with bytes following the image: accepted, the
+   stream reader consumes exactly the image, content / mode / invariant / doubles restored; exact state where stored verbatim *)
+Theorem C09_hll_roundtrip : forall ty lgk full cs i stream compact hip rest,
+  4 <= lgk -> lgk <= 21 -> Forall cvalid cs -> sk_run ty lgk full cs = Some i -> hip < two64 ->
+  exists d rest', dec_gen stream (enc compact hip i ++ rest) = Some (d, rest') /\ (stream = true -> rest' = rest) /\
+    sk_content (d_impl d) = sk_content i /\ sk_mode (d_impl d) = sk_mode i /\
+    skinv lgk ty full (d_impl d) cs /\ flags_ok (d_impl d) /\
+    (sk_mode i = 2 -> d_hip d = hip /\ d_k0 d = k0_of i /\ d_k1 d = k1_of i) /\
+    (exactly_stored compact i -> d_impl d = i /\ enc compact hip (d_impl d) = enc compact hip i).
+Proof. exact run_roundtrip. Qed.
+
+(* the restored sketch remains fully functional: continuing with any coupons gives the content of the whole stream *)
+Theorem C09_hll_restored_continues : forall ty lgk full cs i stream compact hip rest cs2,
+  4 <= lgk -> lgk <= 21 -> Forall cvalid cs -> Forall cvalid cs2 -> sk_run ty lgk full cs = Some i -> hip < two64 ->
+  exists d rest' i2, dec_gen stream (enc compact hip i ++ rest) = Some (d, rest') /\
+    sk_updates (d_impl d) cs2 = Some i2 /\ sk_content i2 = content_spec lgk full (cs ++ cs2) /\
+    sk_mode i2 = mode_of lgk full (ndistinct (cs ++ cs2)).
+Proof. exact run_roundtrip_continue. Qed.
+
+(* the image has exactly the advertised size (get_compact_serialization_bytes / get_updatable_serialization_bytes) *)
+Theorem C09_hll_image_size : forall ty lgk full cs i compact hip,
+  4 <= lgk -> lgk <= 21 -> Forall cvalid cs -> sk_run ty lgk full cs = Some i -> lenN (enc compact hip i) = enc_size compact i.
+Proof. exact run_enc_size. Qed.
+
+(* the same for ANY state satisfying the representation invariant (e.g. converted copies, restored sketches) *)
+Theorem C09_hll_roundtrip_invariant : forall lgk ty full i C stream compact hip rest,
+  4 <= lgk -> lgk <= 21 -> Forall cvalid C -> skinv lgk ty full i C -> flags_ok i -> hip < two64 ->
+  exists d rest', dec_gen stream (enc compact hip i ++ rest) = Some (d, rest') /\ (stream = true -> rest' = rest) /\
+    skinv lgk ty full (d_impl d) C /\ flags_ok (d_impl d) /\
+    (sk_mode i = 2 -> d_hip d = hip /\ d_k0 d = k0_of i /\ d_k1 d = k1_of i) /\
+    ((sk_mode i = 0 \/ (sk_mode i = 1 /\ compact = false) \/ (sk_mode i = 2 /\ sk_ty i <> T4)) -> d_impl d = i).
+Proof. exact codec_roundtrip. Qed.
+
+(* the kxq doubles are written and read back exactly *)
+Theorem C09_hll_kxq_exact : forall e K, (0 <= K < 2 ^ 53)%Z -> (e = 31 \/ e = 63)%Z -> kunbits e (kbits e K) = Some K /\ kbits e K < two64.
+Proof. exact kxq_pattern_exact. Qed.
+
+(* non-vacuity: HLL_4 at lg_k 4 with a cur-min shift and an aux exception, set mode at lg_k 10 *)
+Example C09_hll_nonvacuous :
+  let cs := map (fun s => pair_sv s 1) (seqN 16) ++ [pair_sv 3 20; pair_sv 5 2] in
+  let cs2 := map (fun s => pair_sv (s * 37 + 5) (1 + s mod 7)) (seqN 30) in
+  match sk_run T4 4 false cs, sk_run T6 10 false cs2 with
+  | Some i, Some j =>
+      sk_mode i = 2 /\ sk_mode j = 1 /\
+      lenN (enc true 4607182418800017408 i) = 40 + 8 + 4 /\ lenN (enc false 0 i) = 40 + 8 + 16 /\
+      match dec_bytes (enc true 4607182418800017408 i), dec_stream (enc false 7 i ++ [1; 2; 3]), dec_stream (enc true 0 j) with
+      | Some d1, Some (d2, r2), Some (d3, r3) =>
+          sk_content (d_impl d1) = sk_content i /\ d_hip d1 = 4607182418800017408 /\ r2 = [1; 2; 3] /\ d_hip d2 = 7 /\
+          sk_content (d_impl d3) = sk_content j /\ r3 = [] /\ dec_stream (firstn 51 (enc true 0 i)) = None
+      | _, _, _ => False
+      end
+  | _, _ => False
+  end.
+Proof. vm_compute. repeat split; reflexivity. Qed.
+
+Print Assumptions C09_hll_roundtrip.
+Print Assumptions C09_hll_restored_continues.
+Print Assumptions C09_hll_image_size.
+Print Assumptions C09_hll_roundtrip_invariant.
+Print Assumptions C09_hll_kxq_exact.
